@@ -5,6 +5,15 @@ namespace Verif.Model.AwaitSlow
 open Verif.Model.Await
 variable {α : Type}
 
+/-- with instantaneous callbacks `loopD` IS `loop`: everything proved about the receive loop of
+`Model/Await.lean` is a statement about `loopD` at duration zero -/
+theorem loopD_zero (R : Int → Bool) (cfg : Cfg α) (t : Nat) (ev : List (Nat × In α))
+    (ws : List Write) (cbs) (n : Nat) :
+    loopD R cfg (fun _ => 0) t ev ws cbs n = loop R cfg t ev ws cbs n := by
+  fun_induction loopD R cfg (fun _ => 0) t ev ws cbs n <;> (rw [loop]; simp_all (config := { zetaDelta := true }))
+  all_goals (first | (intro h; exfalso; omega) | (rw [if_neg (by omega), if_neg (by omega)]) | (rw [if_neg (by omega)]) | skip)
+  all_goals (split <;> first | rfl | (exfalso; omega))
+
 /-- completion time never exceeds the deadline, however long the callbacks take -/
 theorem loopD_time_le_deadline (R : Int → Bool) (cfg : Cfg α) (dur : Nat → Nat) (t : Nat)
     (ev : List (Nat × In α)) (ws : List Write) (cbs) (n : Nat) :
